@@ -7,6 +7,7 @@ from props import common
 from props import c09
 
 PROP = "C10"
+NEUTRALISE = ("D3",)
 LEVEL_TEXT = ("Bounded symbolic execution of operation histories on pools with shared sub-expression objects (as C09), but the compared objects "
               "are the OPERANDS: after the history every pooled expression and every derivative object created on the way must still be == to, "
               "print as, hash as and (for ALL points, decided by z3) evaluate like its twin from a pool on which only the creating operations ran; "
@@ -54,6 +55,8 @@ def jobs(tier, seed):
         hists = hists[::3] + [h for h in hists if len(h["hist"]) >= 2][1::4]
     else:
         hists += [{"pool": s["pool"], "hist": s["hist"]} for s in c09.long_lived()[::2] + c09.composed()]
+    for t in ("e1", "e3"):      # inside the region of known finding D3 (a late Partial switches to the mis-simplified derivative after as_expression())
+        hists.append({"pool": "F", "hist": [["mk", "P", "partial", t], ["q", "P", "q"], ["qasexp", "P"], ["q", "P", "p"]]})
     for h in hists:
         js.append({"mode": "operands", **h})
     for n in range(0, 5):
